@@ -1,1 +1,319 @@
-pub fn main(_args: &[String]) -> i32 { eprintln!("conc: not built yet"); 2 }
+// code -> spec under concurrency (C18, C02): rounds of simultaneously fired, pipelined
+// scripts from many connections on a multi-thread runtime, with the seeded race points of
+// the hooks armed.  Each round is recorded (pre snapshot, scripts, what every socket
+// received in order, post snapshot); TraceLin.tla searches for a linearization.
+
+use crate::core::*;
+use crate::drive::{cmd, profile_cfg, Gen, CONNS, NICKS};
+use crate::state::verif;
+use crate::wire;
+use rand::rngs::StdRng;
+use rand::seq::SliceRandom;
+use rand::{Rng, SeedableRng};
+use serde_json::{json, Map, Value};
+use std::collections::BTreeMap;
+use std::io::{BufWriter, Write};
+use std::sync::atomic::Ordering;
+use std::time::Duration;
+use tokio::io::AsyncWriteExt;
+
+fn s(x: &str) -> String {
+    x.to_string()
+}
+
+fn scenario_scripts(kind: usize, g: &mut Gen, snap: &Value, conns: &[String]) -> BTreeMap<String, Vec<Value>> {
+    let mut m: BTreeMap<String, Vec<Value>> = BTreeMap::new();
+    let authed: Vec<String> = conns
+        .iter()
+        .filter(|c| snap["conns"][c.as_str()]["authed"].as_bool().unwrap_or(false))
+        .cloned()
+        .collect();
+    let unauth: Vec<String> = conns
+        .iter()
+        .filter(|c| !snap["conns"][c.as_str()].is_null() && !snap["conns"][c.as_str()]["authed"].as_bool().unwrap_or(false))
+        .cloned()
+        .collect();
+    match kind {
+        // simultaneous claims of one nickname by registered users
+        0 => {
+            let n = g.rng.gen_range(0..NICKS.len());
+            for c in &authed {
+                m.insert(c.clone(), vec![cmd("NICK", vec![vec![s(NICKS[n])]]), cmd("PRIVMSG", vec![vec![s(NICKS[n])], vec![format!("from {}", c)]])]);
+            }
+        }
+        // simultaneous first joins of a fresh channel, then talk
+        1 => {
+            let ch = format!("#fresh{}", g.rng.gen_range(0..1000));
+            for c in &authed {
+                m.insert(c.clone(), vec![cmd("JOIN", vec![vec![ch.clone()]]), cmd("PRIVMSG", vec![vec![ch.clone()], vec![format!("hi from {}", c)]]),
+                                         cmd("MODE", vec![vec![ch.clone()], vec![s("+l"), s("2")]])]);
+            }
+        }
+        // a +l channel with one free place
+        2 => {
+            if let Some(first) = authed.get(0) {
+                m.insert(first.clone(), vec![cmd("PING", vec![vec![s("x")]])]);
+            }
+            for c in authed.iter().skip(1) {
+                m.insert(c.clone(), vec![cmd("JOIN", vec![vec![s("#lim")]]), cmd("NAMES", vec![vec![s("#lim")]])]);
+            }
+        }
+        // message storm while receivers part, are kicked or renamed
+        3 => {
+            for (i, c) in authed.iter().enumerate() {
+                let sc = match i % 4 {
+                    0 => vec![cmd("PRIVMSG", vec![vec![s("#one")], vec![format!("{}-1", c)]]), cmd("PRIVMSG", vec![vec![s("#one")], vec![format!("{}-2", c)]]),
+                              cmd("PRIVMSG", vec![vec![s("#one")], vec![format!("{}-3", c)]])],
+                    1 => vec![cmd("PART", vec![vec![s("#one")]]), cmd("JOIN", vec![vec![s("#one")]]), cmd("PRIVMSG", vec![vec![s("#one")], vec![format!("{}-back", c)]])],
+                    2 => vec![cmd("NICK", vec![vec![g.nick_for(i)]]), cmd("NOTICE", vec![vec![s("#one")], vec![format!("{}-n", c)]])],
+                    _ => vec![cmd("KICK", vec![vec![s("#one")], vec![g.some_nick(snap)]]), cmd("TOPIC", vec![vec![s("#one")], vec![format!("topic by {}", c)]])],
+                };
+                m.insert(c.clone(), sc);
+            }
+        }
+        // KILL vs QUIT vs NICK of the same user
+        4 => {
+            if authed.len() >= 2 {
+                let victim_nick = snap["conns"][authed[1].as_str()]["nick"][0].as_str().unwrap_or("x").to_string();
+                m.insert(authed[0].clone(), vec![cmd("OPER", vec![vec![s("god")], vec![s("godpass")]]), cmd("KILL", vec![vec![victim_nick.clone()], vec![s("bye")]]),
+                                                 cmd("WHOIS", vec![vec![victim_nick.clone()]])]);
+                m.insert(authed[1].clone(), vec![cmd("NICK", vec![vec![s("moved")]]), cmd("PRIVMSG", vec![vec![s("#one")], vec![s("still here")]]), cmd("QUIT", vec![])]);
+                for c in authed.iter().skip(2) {
+                    m.insert(c.clone(), vec![cmd("WHOIS", vec![vec![victim_nick.clone()]]), cmd("NAMES", vec![vec![s("#one")]])]);
+                }
+            }
+        }
+        // registration races: unregistered connections claim the same nick (with/without password)
+        5 => {
+            let n = s(NICKS[g.rng.gen_range(0..NICKS.len())]);
+            for (i, c) in unauth.iter().enumerate() {
+                let idx = CONNS.iter().position(|x| *x == c.as_str()).unwrap_or(0) + 1;
+                let mut sc = vec![];
+                if g.profile == "pw" || g.profile == "full" {
+                    sc.push(cmd("PASS", vec![vec![s(if i % 3 == 2 { "wrong" } else { "srvpass" })]]));
+                }
+                sc.push(cmd("NICK", vec![vec![n.clone()]]));
+                sc.push(cmd("USER", vec![vec![format!("u{}", idx)], vec![s("R")]]));
+                sc.push(cmd("PRIVMSG", vec![vec![n.clone()], vec![format!("i am {}", c)]]));
+                m.insert(c.clone(), sc);
+            }
+            for c in &authed {
+                m.insert(c.clone(), vec![cmd("NICK", vec![vec![n.clone()]]), cmd("ISON", vec![vec![n.clone()]])]);
+            }
+        }
+        // random scripts
+        _ => {
+            for c in conns {
+                if snap["conns"][c.as_str()].is_null() {
+                    continue;
+                }
+                let k = g.rng.gen_range(1..4);
+                let mut sc = vec![];
+                for _ in 0..k {
+                    let (_, cm) = g.next_for(snap, c);
+                    let v = wire::verb(&cm);
+                    if v.starts_with('!') || v == "QUIT" || v == "DIE" || v == "SQUIT" {
+                        continue;
+                    }
+                    sc.push(cm);
+                }
+                if !sc.is_empty() {
+                    m.insert(c.clone(), sc);
+                }
+            }
+        }
+    }
+    m
+}
+
+impl Gen {
+    pub fn nick_for(&mut self, i: usize) -> String {
+        NICKS[(i + self.rng.gen_range(0..NICKS.len())) % NICKS.len()].to_string()
+    }
+    pub fn some_nick(&mut self, snap: &Value) -> String {
+        let ex: Vec<String> = snap["users"].as_object().map(|o| o.keys().cloned().collect()).unwrap_or_default();
+        ex.choose(&mut self.rng).cloned().unwrap_or_else(|| "nobody".to_string())
+    }
+    pub fn next_for(&mut self, snap: &Value, c: &str) -> (String, Value) {
+        let k = &snap["conns"][c];
+        if k.is_null() {
+            return (c.to_string(), cmd("!open", vec![]));
+        }
+        // reuse the sequential generator's choices for this connection
+        let authed = k["authed"].as_bool().unwrap_or(false);
+        let v = if authed { self.reg_cmd(snap, c) } else { self.pre_cmd(snap, c) };
+        (c.to_string(), v)
+    }
+}
+
+async fn run_rounds(id: &str, cfg: &Value, seed: u64, rounds: usize, nconn: usize, out: &mut Vec<Value>) {
+    let cfgn = normalize_cfg(cfg);
+    let mut sess = Session::start(&cfgn).await;
+    take_panics();
+    let profile = cfg["_profile"].as_str().unwrap_or("plain").to_string();
+    let mut g = Gen { rng: StdRng::seed_from_u64(seed), profile: profile.clone() };
+    let conns: Vec<String> = CONNS.iter().take(nconn).map(|x| x.to_string()).collect();
+    // sequential setup: open all, register most, join #one
+    let mut snap = sess.snapshot().await;
+    for (i, c) in conns.iter().enumerate() {
+        sess.step(c, &cmd("!open", vec![])).await;
+        if i + 2 < conns.len() || g.rng.gen_bool(0.5) {
+            if profile == "pw" {
+                sess.step(c, &cmd("PASS", vec![vec![s("srvpass")]])).await;
+            }
+            sess.step(c, &cmd("NICK", vec![vec![s(NICKS[i])]])).await;
+            sess.step(c, &cmd("USER", vec![vec![format!("u{}", i + 1)], vec![s("R")]])).await;
+            sess.step(c, &cmd("JOIN", vec![vec![s("#one")]])).await;
+        }
+    }
+    if let Some(c0) = conns.get(0) {
+        sess.step(c0, &cmd("JOIN", vec![vec![s("#lim")]])).await;
+        sess.step(c0, &cmd("MODE", vec![vec![s("#lim")], vec![s("+l"), s("2")]])).await;
+    }
+    verif::RACE_SEED.store(seed, Ordering::SeqCst);
+    verif::RACE_ARMED.store(true, Ordering::SeqCst);
+    for r in 0..rounds {
+        snap = sess.snapshot().await;
+        if !snap["dead"].as_array().map(|a| a.is_empty()).unwrap_or(true) {
+            break;
+        }
+        // re-open connections that ended in earlier rounds
+        for c in &conns {
+            if snap["conns"][c.as_str()].is_null() {
+                sess.step(c, &cmd("!open", vec![])).await;
+            }
+        }
+        snap = sess.snapshot().await;
+        let kind = (seed as usize + r) % 8;
+        let scripts = scenario_scripts(kind, &mut g, &snap, &conns);
+        if scripts.is_empty() {
+            continue;
+        }
+        // fire all scripts at once: every connection writes its whole script in one go
+        let mut payloads: Vec<(String, Vec<u8>)> = vec![];
+        for (c, sc) in scripts.iter() {
+            let mut d = vec![];
+            for cm in sc {
+                d.extend_from_slice(wire::to_line(cm).as_bytes());
+                d.extend_from_slice(b"\r\n");
+            }
+            payloads.push((c.clone(), d));
+        }
+        payloads.shuffle(&mut g.rng);
+        // take the sockets out so that the writes really happen in parallel tasks
+        let barrier = std::sync::Arc::new(tokio::sync::Barrier::new(payloads.len()));
+        let mut handles = vec![];
+        for (c, d) in payloads {
+            if let Some(cl) = sess.clients.get_mut(&c) {
+                if let Some(stream) = cl.stream.take() {
+                    let nl = d.iter().filter(|b| **b == b'\n').count() as u64;
+                    cl.sent_lines += nl;
+                    let b = barrier.clone();
+                    handles.push((c.clone(), tokio::spawn(async move {
+                        let mut stream = stream;
+                        b.wait().await;
+                        let _ = stream.write_all(&d).await;
+                        stream
+                    })));
+                }
+            }
+        }
+        for (c, h) in handles {
+            if let Ok(stream) = h.await {
+                if let Some(cl) = sess.clients.get_mut(&c) {
+                    cl.stream = Some(stream);
+                }
+            }
+        }
+        let mut issue: Vec<String> = vec![];
+        if let Err(StepIssue::Watchdog(w)) = sess.quiesce(Duration::from_millis(4000)).await {
+            issue.push(format!("watchdog: {}", w));
+        }
+        let outs = match sess.collect(Duration::from_millis(3000)).await {
+            Ok(o) => o,
+            Err(StepIssue::Watchdog(w)) => {
+                issue.push(format!("watchdog(read): {}", w));
+                vec![]
+            }
+        };
+        let post = sess.snapshot().await;
+        sess.retire_ended();
+        // per receiver: the direct stream (non-relay lines) and, per sending connection, the relays
+        let mut direct: Map<String, Value> = Map::new();
+        let mut relay: Map<String, Value> = Map::new();
+        for c in &conns {
+            direct.insert(c.clone(), json!([]));
+            let mut per = Map::new();
+            for s2 in &conns {
+                per.insert(s2.clone(), json!([]));
+            }
+            relay.insert(c.clone(), Value::Object(per));
+        }
+        for m in outs.iter() {
+            let to = m["to"].as_str().unwrap_or("").to_string();
+            if m["k"] == "r" {
+                let src = m["src"].as_str().unwrap_or("");
+                let host = src.rsplit('@').next().unwrap_or("").to_string();
+                if let Some(arr) = relay.get_mut(&to).and_then(|x| x.get_mut(&host)).and_then(|x| x.as_array_mut()) {
+                    arr.push(m.clone());
+                } else {
+                    issue.push(format!("relay from unknown source {}", src));
+                }
+            } else if let Some(arr) = direct.get_mut(&to).and_then(|x| x.as_array_mut()) {
+                arr.push(m.clone());
+            }
+        }
+        let scr: Map<String, Value> = conns
+            .iter()
+            .map(|c| (c.clone(), Value::Array(scripts.get(c).cloned().unwrap_or_default())))
+            .collect();
+        let panics = take_panics();
+        out.push(json!({"round": r + 1, "b": id, "kind": kind, "cfg": cfgn, "conns": conns, "pre": snap, "scripts": scr,
+                        "direct": direct, "relay": relay, "post": post, "issue": issue, "panics": panics,
+                        "race_hits": verif::RACE_HITS.load(Ordering::SeqCst)}));
+        // liveness: every live connection still answers
+        let live: Vec<String> = sess.clients.keys().cloned().collect();
+        for c in live {
+            let (o, i) = sess.step(&c, &cmd("PING", vec![vec![s("alive")]])).await;
+            let authed = post["conns"][c.as_str()]["authed"].as_bool().unwrap_or(false);
+            let answered = o.iter().any(|m| m["to"] == c.as_str() && (m["c"] == "PONG" || m["c"] == "451"));
+            if !post["conns"][c.as_str()].is_null() && (!answered || i.is_some()) {
+                out.push(json!({"liveness": true, "b": id, "round": r + 1, "c": c, "authed": authed, "answered": answered, "issue": i}));
+            }
+        }
+    }
+    verif::RACE_ARMED.store(false, Ordering::SeqCst);
+    sess.stop().await;
+}
+
+pub fn main(args: &[String]) -> i32 {
+    if args.is_empty() {
+        eprintln!("conc <out.ndjson> --seed S --rounds N [--workers W] [--episodes E]");
+        return 2;
+    }
+    let seed: u64 = arg_val(args, "--seed").and_then(|s| s.parse().ok()).unwrap_or(1);
+    let rounds: usize = arg_val(args, "--rounds").and_then(|s| s.parse().ok()).unwrap_or(16);
+    let episodes: usize = arg_val(args, "--episodes").and_then(|s| s.parse().ok()).unwrap_or(1);
+    let workers: usize = arg_val(args, "--workers").and_then(|s| s.parse().ok()).unwrap_or(4);
+    let base: u16 = arg_val(args, "--port-base").and_then(|s| s.parse().ok()).unwrap_or(30000);
+    set_port_base(base);
+    let mut w = BufWriter::new(std::fs::File::create(&args[0]).expect("create output"));
+    let rt = runtime(workers);
+    let profiles = ["plain", "pw", "modes", "plain"];
+    for e in 0..episodes {
+        let profile = profiles[(seed as usize + e) % profiles.len()];
+        let mut cfg = profile_cfg(profile);
+        cfg["_profile"] = json!(profile);
+        if cfg["operators"].is_null() {
+            cfg["operators"] = json!([{"name": "god", "pass": "godpass"}]);
+        }
+        let mut recs = vec![];
+        let id = format!("conc-{}-{}-{}-w{}", seed, e, profile, workers);
+        rt.block_on(run_rounds(&id, &cfg, seed.wrapping_mul(7919).wrapping_add(e as u64), rounds, 5, &mut recs));
+        for r in recs {
+            writeln!(w, "{}", r).unwrap();
+        }
+    }
+    w.flush().unwrap();
+    0
+}
